@@ -251,7 +251,6 @@ func spawn(p plan) *exec.Cmd {
 	pj, _ := json.Marshal(p)
 	cmd := exec.Command(os.Args[0], "-test.run", "^$")
 	cmd.Env = append(os.Environ(), "VERIF_C15_PLAN="+string(pj))
-	cmd.SysProcAttr = &syscall.SysProcAttr{Pdeathsig: syscall.SIGKILL} // no orphans when the test process itself is stopped
 	return cmd
 }
 
